@@ -82,3 +82,11 @@ Theorem C01_seg_nth : forall (A : Type) (d : A) (l : list A) a b k, (a + k <= b)
   nth k (seg l a b) d = nth (a + k) l d.
 Proof. exact seg_nth. Qed.
 Print Assumptions C01_seg_nth.
+
+(* non-vacuity: a weighted instance that needs pooling (hypotheses of the theorems above are satisfiable) *)
+From MD Require Import proofs.Examples.
+Theorem C01_example : isotonic_regression [3; 1; 2; 5; 4]%Q (Some [1; 2; 1; 1; 3]%Q) true IFmean (1#2)
+    = IOk ([5#3; 5#3; 2; 17#4; 17#4]%Q, [0; 2; 3; 5]%nat)
+  /\ [3; 1; 2; 5; 4]%Q <> [] /\ valid_w [3; 1; 2; 5; 4]%Q (Some [1; 2; 1; 1; 3]%Q).
+Proof. exact (conj ex_iso_mean ex_iso_mean_valid). Qed.
+Print Assumptions C01_example.
